@@ -12,7 +12,7 @@ if [ -d driver ]; then
   ( cd driver && CARGO_TARGET_DIR=../.cache/driver-target cargo +nightly build --release --offline 2>&1 | tail -2 )
 fi
 echo "[setup] warming caches (CLI build, emission, MIR facts)"
-python3 - <<'PY'
+/usr/bin/python3 - <<'PY'
 import sys
 sys.path.insert(0, '.')
 from vlib.context import Context
@@ -20,8 +20,8 @@ ctx = Context()
 ctx.programs()
 try:
     from vlib import props
-    for g in getattr(props, 'WARM_GROUPS', []):
-        props.GROUPS[g](ctx)
+    for g in sorted(props.GROUPS):
+        ctx.group(g, lambda g=g: props.GROUPS[g](ctx))
 except Exception as e:
     print('[setup] warm-up note:', e)
 print('[setup] tree hash', ctx.art.hash)
